@@ -120,7 +120,7 @@ def replay(w, ctx):
 def floors(m, tier):
     out = []
     c, cov = m['counters'], m['cover']
-    need = 4000 if tier == 'quick' else 80000
+    need = 2500 if tier == 'quick' else 50000
     if c.get('bf_runs', 0) < need:
         out.append('only %d brute-force runs' % c.get('bf_runs', 0))
     if len(m['distinct']) < need // 8:
